@@ -14,6 +14,7 @@ mod c13;
 mod c07;
 mod c15;
 mod c14;
+mod c11;
 mod common;
 mod dict;
 mod world;
@@ -55,6 +56,7 @@ fn main() {
         "C07" => c07::run(&mut run),
         "C15" => c15::run(&mut run),
         "C14" => c14::run(&mut run),
+        "C11" => c11::run(&mut run),
         _ => { eprintln!("unknown property {}", prop); std::process::exit(2); }
     }
     run.finish();
